@@ -372,7 +372,9 @@ def check_two_ended_candidates(ctx, F, tag):
             import c06
             roots = {f: c06.root_local(b, ops[f]) for f in ("next_set", "last_set")}
             # the candidate taken second (after the inner iterator lost its first item) is the one that needs the fallback
-            order = {f: min([d[0] for d in b.defs().get(roots[f], [])] or [1 << 30]) for f in roots}
+            import serfmt
+            rp = serfmt.rpo(b)
+            order = {f: min([rp.get(d[0], 1 << 30) for d in b.defs().get(roots[f], [])] or [1 << 30]) for f in roots}
             second = max(order, key=lambda f: order[f])
             first = other[second]
             bad, fallback = [], False
